@@ -50,6 +50,7 @@ def c16():
         O("C16.unalign.pow2", "c16_arith.c", "h_unalign_pow2", funcs=["_mi_page_ptr_unalign", "mi_ctz"],
           bounds="block size 2^k for k=3..40, block index 0/1, all interior offsets", cost=20, std_checks=False),
     ]
+    obs.append(page_alloc_dispatch_ob("C16"))
     for b in ALL_BINS:
         t = "quick" if b in REAL_BINS_QUICK else "thorough"
         obs.append(O("C16.unalign.bin%02d" % b, "c16_arith.c", "h_unalign", tier=t, defines=["BIN=%d" % b],
@@ -216,6 +217,12 @@ def td_obs(prefix):
                          std_checks=False, native_replay=False, cost=20, funcs=["mi_thread_data_zalloc", "mi_thread_data_free", "_mi_thread_data_collect"],
                          bounds="thread-metadata cache with a (dirty) block in slot %d or empty / completely full; OS may refuse" % slot))
     return obs
+
+
+def thread_done_obs(prefix):
+    return [O("%s.thread_heap_done.order%d" % (prefix, o), "init_layer.c", "h_thread_heap_done", defines=["ORDER=%d" % o, "MI_PRIM_THREAD_ID=verif_tid"], unwind=8, unwindset=["_mi_memcpy_aligned.0:4"],
+              replace={"mi_thread_data_free": "stub_thread_data_free"}, std_checks=False, native_replay=False, cost=10,
+              funcs=["_mi_thread_heap_done", "_mi_heap_set_default_direct"], bounds="thread with a backing heap and two further heaps, list order %d of 3; main or worker thread; default heap backing or not" % o) for o in (0, 1, 2)]
 
 
 def c11():
@@ -508,7 +515,7 @@ def c01():
     obs += page_obs("C01", [E_MALLOC, E_FREE, E_COLLECT, E_EXTEND], sizes=((1024, 3),), flavours=("release", "secure"), tier="extended")
     obs += page_obs("C01", [E_FREE, E_COLLECT, E_EXTEND], sizes=((16, 6), (80, 4)), flavours=("secure",), tier="extended")
     obs += queue_obs("C01")
-    obs += span_obs("C01") + page_free_full_obs("C01") + find_free_obs("C01")
+    obs += span_obs("C01") + page_free_full_obs("C01") + find_free_obs("C01") + [page_alloc_dispatch_ob("C01")]
     obs += segment_alloc_full_obs("C01", flavours=("release",)) + segment_alloc_full_obs("C01", flavours=("secure",), tier="thorough")
     for b in (1, 2, 13, 33, 48):
         obs.append(O("C01.page_start.bin%02d" % b, "c16_arith.c", "h_page_start", defines=["BIN=%d" % b], funcs=["_mi_segment_page_start_from_slice"], cost=30,
@@ -880,7 +887,7 @@ def c09():
     obs.append(heap_by_tag_ob("C09"))
     obs.append(collect_abandon_ob("C09"))
     obs.append(segment_reclaim_ob("C09"))
-    obs += seg_reclaim_full_obs("C09") + check_free_obs("C09")
+    obs += seg_reclaim_full_obs("C09") + check_free_obs("C09") + thread_done_obs("C09")
     obs += [o for o in page_free_full_obs("C09") if o["id"].endswith(".abandoned")]
     return obs
 
@@ -963,6 +970,13 @@ def segment_alloc_full_obs(prefix, flavours=("release", "secure"), tier="quick")
                                  funcs=["mi_segment_alloc", "mi_segment_os_alloc", "mi_segment_calculate_slices", "mi_segment_span_allocate", "mi_segment_span_free", "mi_segment_huge_page_alloc", "_mi_segment_page_of", "_mi_segment_page_start"],
                                  bounds="request %d bytes (0 = normal segment), alignment %s, %s memory, %s build; options, commit state and OS answers symbolic" % (req, "one segment" if al else "none", "zeroed" if zm else "arbitrary (recycled)", fl)))
     return obs
+
+
+def page_alloc_dispatch_ob(prefix):
+    return sg_ob(prefix + ".page_alloc_dispatch", "h_page_alloc_dispatch", unwind=6, unwindset=[], std_checks=False, cost=20,
+                 replace={"mi_segments_page_find_and_allocate": "stub_find_and_allocate", "mi_segment_reclaim_or_alloc": "stub_reclaim_or_alloc", "mi_segment_huge_page_alloc": "stub_huge_page_alloc",
+                          "mi_segment_try_purge": "stub_try_purge_noop", "_mi_ptr_segment": "stub_ptr_segment3"},
+                 funcs=["_mi_segment_page_alloc", "mi_segments_page_alloc", "_mi_align_up"], bounds="any block size 1..2^40, any alignment (0 or a power of two above MI_BLOCK_ALIGNMENT_MAX up to 2^40); <= 3 search attempts")
 
 
 def segment_alloc_commit_ob(prefix):
